@@ -508,9 +508,8 @@ func (d *Differ) stepClean(op Op) {
 	d.Cleans++
 	d.CleanDeletes += len(vanished)
 	d.Rep.Count("clean_deletions", int64(len(vanished)))
-	if len(vanished) > 0 {
-		d.checkReserved(op)
-	}
+	// (the usage gauge is not refreshed by Clean's eviction phase; the
+	// reserved figure is compared through the utilisation Clean reports)
 }
 
 // stale reports whether a retained handle's blob is gone (evicted, deleted or
